@@ -82,6 +82,9 @@ def rule_r1(prog, res) -> None:
             atoms.append(unparse(x))
         elif isinstance(x, ast.Compare) and "closed" in unparse(x):
             atoms.append(unparse(x))
+    approx = [x for x in ast.walk(final) if isinstance(x, ast.Call) and (dotted(x.func) or "").split(".")[-1] in ("allclose", "isclose")]
+    if approx:
+        res.violation("C07.R1", eq, approx[0], "Binning.__eq__ compares the edges approximately: trees cached for slightly different edges are reused (objects between the two edge versions are binned wrongly)", key_extra="eq-approximate")
     if len(atoms) >= 2:
         bad = False
         for i in range(len(atoms)):
@@ -104,13 +107,14 @@ def rule_r1(prog, res) -> None:
     if be is not None:
         res.touch(be)
         param = be.param_names()[1]
-        A, B, C = ("B", 1, "right"), ("B", 2, "right"), ("B", 1, "left")  # (tag, edges id, closed); same length
-        table = [((None, None), True), ((None, A), False), ((A, None), False), ((A, A), True), ((A, B), False), ((A, C), False), ((C, A), False)]
+        # (tag, edges, closed); same length.  D differs from A by less than any tolerance-based comparison resolves
+        A, B, C, D = ("B", (0.1, 0.3, 0.9), "right"), ("B", (0.1, 0.7, 0.9), "right"), ("B", (0.1, 0.3, 0.9), "left"), ("B", (0.1, 0.3000000001, 0.9), "right")
+        table = [((None, None), True), ((None, A), False), ((A, None), False), ((A, A), True), ((A, B), False), ((A, C), False), ((C, A), False), ((A, D), False), ((D, A), False)]
 
         def describe(text, v, env):
             env[text] = v
             if v is not None:
-                env[f"{text}.edges"] = ("E", v[1])
+                env[f"{text}.edges"] = v[1]
                 env[f"{text}.closed"] = v[2]
                 env[f"len({text})"] = 5
                 env[f"len({text}.edges)"] = 6
@@ -263,7 +267,25 @@ def rule_r2(prog, res) -> None:
         rt = {}
         for c in ("left", "right"):
             b = bool(ceval(enc, {t: c for t in closed_texts}))
-            rt[c] = ceval(dec, {f: int(b) for f in flag_names})
+            # the byte that is written for this flag value …
+            written = None
+            if isinstance(fe, ast.Call):
+                fs = unparse(flag_src) if flag_src is not None else None
+                try:
+                    written = ceval(fe, {fs: b} if fs else {})
+                except Unknown:
+                    written = None
+            env_r = {}
+            if isinstance(written, (bytes, bytearray)):
+                # … decoded by the reader's own expressions for the flag variable(s)
+                env_r[unparse(r_flag)] = written
+                for fnm in flag_names:
+                    defs = [v for v in all_def_values(init.node, fnm) if v is not None]
+                    if len(defs) == 1:
+                        env_r[fnm] = ceval(defs[0], env_r)
+            else:
+                env_r = {f: int(b) for f in flag_names}
+            rt[c] = ceval(dec, env_r)
     except Unknown as err:
         raise AnalysisError(f"C07.R2: cannot evaluate closed-side encoding ({err})")
     if rt == {"left": "left", "right": "right"}:
